@@ -188,6 +188,14 @@ class Table:
             for lab, r in self.name_sign.items():
                 if r.search(txt):
                     return lab
+            # a compared value kept in a named local (`let toi = file.toi; if toi == TOI_FDT`): label it by its definition
+            nd = self._named_defs()
+            items, c = key
+            if any(n in nd for n, _ in items):
+                txt = show_key((tuple((nd.get(n, n), v) for n, v in items), c))
+                for lab, r in self.name_sign.items():
+                    if r.search(txt):
+                        return lab
         elif kind == "bool":
             for lab, r in self.name_bool.items():
                 if r.search(key):
